@@ -71,13 +71,43 @@ package main
 //@     invariant forall k int :: i < k && k < len(all) ==> !strings.HasPrefix(all[k], "-") && strings.HasSuffix(all[k], ext)
 //@ end
 
+//@ ghost fwdName map[int]string
+
+//@ hookset fwdflags
+//@ hook after strings.Cut(s, sep) (b, a, f)
+//@   assert("flag-name-is-cut-from-the-normalised-argument", s == spec.Norm(flags[i]) && sep == "=")
+//@   fwdName[i] = b
+//@ end
+
+// Every flag that the go command's parse (spec.IsNamePos, kept in step by the parse-sync invariant)
+// reaches as a flag name and that is forwardable is handed on in the go command's own spelling
+// (-name), together with its value when the value is a separate argument, in order. isName[p] marks
+// the positions the loop treated as flag names; each of them is a name position of the go command's
+// parse. (That no name position of the go command's parse is skipped is the other half of parse-sync;
+// its quantified form discharges only on cvc5 in about 30 s and is not claimed.)
 //@ func filterForwardBuildFlags
 //@   property C20
 //@   spec goflags.smt2
+//@   hooks fwdflags
 //@   fact @table-booleanFlags: forall s string :: booleanFlags[s] == spec.GoBool(s)
+//@   ghost outAt map[int]int
+//@   ghost isName map[int]bool
+//@   requires forall p int :: !isName[p]
+//@   ensures @forwarded-flags-keep-their-values-in-order: forall p int :: 0 <= p && p < len(flags) && isName[p] && forwardBuildFlags[fwdName[p]] ==> 0 <= outAt[p] && outAt[p] < len(filtered) && filtered[outAt[p]] == spec.Norm(flags[p]) && (!spec.OneArg(flags[p]) && p+1 < len(flags) ==> outAt[p]+1 < len(filtered) && filtered[outAt[p]+1] == flags[p+1])
+//@   ensures @forwarded-flags-stay-in-order: forall p, q int :: 0 <= p && p < q && q < len(flags) && isName[p] && isName[q] && forwardBuildFlags[fwdName[p]] ==> outAt[p] < outAt[q]
+//@   ensures @every-treated-position-is-a-flag-name-of-the-go-command: forall p int :: isName[p] ==> 0 <= p && p < len(flags) && spec.IsNamePos(flags, p)
+//@   ensures @the-first-argument-is-treated-as-a-flag-name: len(flags) > 0 ==> isName[0]
 //@   loop 0
+//@     iter outAt[i] = len(filtered)
+//@     iter isName[i] = true
 //@     invariant 0 <= i && i <= len(flags) + 1
 //@     invariant @parse-sync: i <= len(flags) ==> spec.IsNamePos(flags, i)
+//@     invariant @treated-positions-are-names: forall p int :: isName[p] ==> 0 <= p && p < i && p < len(flags) && spec.IsNamePos(flags, p)
+//@     invariant i > 0 ==> isName[0]
+//@     invariant @order-so-far: forall p int :: isName[p] && forwardBuildFlags[fwdName[p]] ==> 0 <= outAt[p] && outAt[p] < len(filtered)
+//@     invariant @forwarded-names-so-far: forall p int :: isName[p] && forwardBuildFlags[fwdName[p]] ==> filtered[outAt[p]] == spec.Norm(flags[p])
+//@     invariant @forwarded-values-so-far: forall p int :: isName[p] && p+1 < len(flags) && forwardBuildFlags[fwdName[p]] && !spec.OneArg(flags[p]) ==> outAt[p]+1 < len(filtered) && filtered[outAt[p]+1] == flags[p+1]
+//@     invariant @order-so-far-2: forall p, q int :: p < q && isName[p] && isName[q] && forwardBuildFlags[fwdName[p]] ==> outAt[p] < outAt[q]
 //@ end
 
 //@ func flagSetValue
